@@ -131,12 +131,19 @@ Proof. exact: spectral. Qed.
 Print Assumptions C04_spectral_theorem.
 
 (* ... gives the decomposition the eigen contract asks for when all n pairs of a positive definite matrix are
-   requested (full-rank request: nothing discarded).  For 0 < p < n the contract follows by selecting p positive
-   eigenpairs out of this decomposition; that selection is not formalised. *)
+   requested (full-rank request: nothing discarded) ... *)
 Theorem C04_eig_contract_full_rank_satisfiable (F : rcfType) n (W : 'M[F]_n) :
   spd W -> exists s : 'cV[F]_n, exists V : 'M[F]_(n, n), eig_top_of W s V.
 Proof. exact: eig_top_full. Qed.
 Print Assumptions C04_eig_contract_full_rank_satisfiable.
+
+(* ... and for every p <= rank W (the side condition under which the contract is claimed): p positive eigenpairs are
+   split off one at a time by Householder deflation, the remaining n - p pairs are the discarded ones.  Every instance
+   of the contract's conclusion is therefore realisable; no theorem that assumes eig_contract is vacuous. *)
+Theorem C04_eig_contract_instances_exist (F : rcfType) n p (W : 'M[F]_n) :
+  sym W -> psd W -> (p <= \rank W)%N -> exists s : 'cV[F]_p, exists V : 'M[F]_(n, p), eig_top_of W s V.
+Proof. exact: eig_top_exists. Qed.
+Print Assumptions C04_eig_contract_instances_exist.
 
 (* the reduced-QR contract is satisfiable: Householder QR by induction on the dimensions (lib/MxSpectral.v, qr_exists),
    turned into functions by the choice operator of MathComp's choiceType (no axiom) *)
